@@ -395,3 +395,9 @@ package vm
 //@   ensures @C04 createarray.type: isArray(result) && ptr(result) != 0
 //@   panics maybe
 //@ loop 1 invariant createarray.good: forall j in 0..len(el) :: validObj(el[j])
+
+// New optimises every user-defined function: each iteration saves vm.bytecode, works on the body of
+// one function, stores the result under that function's own name in a fresh map and restores
+// vm.bytecode - the iterations commute.  (The debug Printf inside the loop is a listing.)
+//@ func New(constants []object.Object, bytecode code.Instructions, functions map[string]environment.UserFunction, env *environment.Environment) (result *VM)
+//@   maporder listing: every iteration restores vm.bytecode and writes only tmp[name]; the debug line is a listing
